@@ -125,6 +125,7 @@ def run_case(case):
         f.set_correlation(i, j, c)
     ids = [m["id"] for m in case["markets"]]
     segments = []
+    seg_meta = []
     lr_checks = []
     gen0 = f._generate_next
     glr0 = f._generate_log_return
@@ -140,6 +141,8 @@ def run_case(case):
             return out
         f._generate_log_return = glr
         try:
+            d_, M_, _c = probe(f, ids)       # the drift and the return transform in force when this round is drawn
+            seg_meta.append((len(obs), until, d_.tolist(), M_.tolist()))
             gen0()
         finally:
             f._generate_log_return = glr0
@@ -215,7 +218,8 @@ def run_case(case):
     # market-side recorded fundamentals (what Market.get_fundamental_prices reports) at the end
     mseries = {i: [Fraction(x) for x in mk[i].get_fundamental_prices()] for i in ids} if err is None else {}
     return {"obs": obs, "ops_m": ops_m, "segments": segments, "lr_worst": lr_checks, "error": err, "t": t,
-            "probes": [(at, d.tolist(), M.tolist(), c) for at, (d, M, c) in probes], "mseries": mseries}
+            "probes": [(at, d.tolist(), M.tolist(), c) for at, (d, M, c) in probes], "mseries": mseries,
+            "seg_meta": [(a, u, len(sg[ids[0]]) if ids else 0, d, M) for (a, u, d, M), sg in zip(seg_meta, segments)]}
 
 
 def case_term(case, res):
@@ -403,6 +407,34 @@ def mon_C12_full(case, res):
                 want = ref[i][1] * math.exp(drift[i] * (tt - ref[i][0]))
                 if abs(float(ob) - want) > 1e-9 * abs(want):
                     out.append(V("zero-volatility-path-is-level-times-exp-drift-t", n_, market=i, time=tt, got=float(ob), want=want))
+    def check_round(tt, n_):
+        """the return from step tt-1 to step tt that has just been delivered was drawn in the latest generation round covering tt; that
+        round must have used the drift, volatilities and correlations configured for that step - a change made at an earlier step than
+        tt applies to it (the property: after a change at time t, later values continue under the changed parameters)"""
+        cover = None
+        for a, u, ln, d, M in res.get("seg_meta", []):
+            if a <= n_ and u < tt <= u + ln:
+                cover = (a, u, d, M)
+        if cover is None or flagged[0]:
+            return
+        a, u, d, M = cover
+        d, M = np.array(d), np.array(M)
+        cov = M @ M.T if M.size else np.zeros((len(ids), len(ids)))
+        for r, i in enumerate(ids):
+            if abs(d[r] - drift[i]) > 1e-12 + 1e-9 * abs(drift[i]):
+                out.append(V("delivered-returns-drawn-under-the-parameters-configured-for-their-step", n_, time=tt, market=i, drift_used=float(d[r]),
+                             drift_configured=drift[i], round_generated_from=u))
+                flagged[0] = True
+                return
+            for s_, j in enumerate(ids):
+                c = 1.0 if i == j else corr.get(frozenset((i, j)), 0.0)
+                want = vol[i] * c * vol[j]
+                if abs(cov[r, s_] - want) > 1e-12 + 1e-9 * abs(want):
+                    out.append(V("delivered-returns-drawn-under-the-parameters-configured-for-their-step", n_, time=tt, pair=[i, j],
+                                 covariance_used=float(cov[r, s_]), covariance_configured=want, round_generated_from=u))
+                    flagged[0] = True
+                    return
+    flagged = [False]
     # initial gets
     for i in ids:
         o, ob = take()
@@ -417,6 +449,7 @@ def mon_C12_full(case, res):
             for i in ids:
                 o, ob = take()
                 see_get(o, ob, oi)
+            check_round(t, oi)
         elif k in ("vol", "drift", "corr", "uncorr"):
             o, ob = take()
             if ob == "keyerror":
